@@ -73,6 +73,30 @@ def toPascal (s : String) : String :=
 /-- `has_empty_type_name` -/
 def noOName (n : String) : String := toPascal (n ++ "NoO")
 
+/-! ## variants of the modelled code
+
+The five repairs of the generator that landed in /repo (`fix:` commits), each switchable so that the
+counterexample theorems about the code as it WAS stay statements about a definition.
+`Fixes.repo` is /repo as it is now. -/
+
+structure Fixes where
+  /-- "right-recursive @vec rule collects elements in input order" (F7): `insert(0, _)` when the vector is the right operand -/
+  vecRight : Bool
+  /-- "vec action of a single named element refers to the parameter by its declared name" (F23) -/
+  vecLabel : Bool
+  /-- "a rule with two different single-reference alternatives is not a vec pattern" (F22) -/
+  vecAlt : Bool
+  /-- "generated actions import the Context trait anonymously" (F13, rule named `C`) -/
+  ctxAlias : Bool
+  /-- "GLR default builder passes None, not a boxed None, for a right-nulled optional recursive reference" (F12 sub-case) -/
+  optBox : Bool
+  deriving Repr, DecidableEq, Inhabited
+
+/-- /repo as it is now: all five repairs -/
+def Fixes.repo : Fixes := ⟨true, true, true, true, true⟩
+/-- the code before the repairs -/
+def Fixes.asWas : Fixes := ⟨false, false, false, false, false⟩
+
 /-! ## the grammar as the generator sees it -/
 
 /-- one right-hand-side symbol (`Assignment`): referenced symbol, terminal?, `symbol_has_content`, name -/
@@ -195,18 +219,17 @@ def mkChoice (ntName : String) (ntidx : Nat) (p : AProd) : Choice :=
 
 def countName (cs : List Choice) (n : String) : Nat := (cs.filter (·.name == n)).length
 
-/-- append the running index to every choice called `n` -/
-def renumber (n : String) : Nat → List Choice → List Choice
+/-- `Choice::make_choices_name_unique` (after the repair "choice names are made unique in grammar
+order"): one pass in grammar order; a choice whose ORIGINAL name occurs more than once gets its 1-based
+occurrence number among the original names appended. -/
+def makeUniqueAux (orig : List Choice) : Nat → List Choice → List Choice
   | _, [] => []
-  | i, c :: cs => if c.name == n then { c with name := c.name ++ toString i } :: renumber n (i + 1) cs
-                  else c :: renumber n i cs
+  | i, c :: cs =>
+    (if countName orig c.name > 1 then
+       { c with name := c.name ++ toString (countName (orig.take i) c.name + 1) }
+     else c) :: makeUniqueAux orig (i + 1) cs
 
-/-- `Choice::make_choices_name_unique`: names occurring more than once (counted before any renaming)
-get `1, 2, …` appended. The Rust code walks a `HashMap`; the order matters only when a renamed
-choice collides with another duplicated name — here: first-occurrence order. -/
-def makeUnique (cs : List Choice) : List Choice :=
-  let dups := (cs.map (·.name)).eraseDups.filter (fun n => countName cs n > 1)
-  dups.foldl (fun acc n => renumber n 1 acc) cs
+def makeUnique (cs : List Choice) : List Choice := makeUniqueAux cs 0 cs
 
 structure KindMatch where
   noMatch : Bool := false
@@ -214,7 +237,7 @@ structure KindMatch where
   single : Option String := none
   recurse : Option String := none
 
-def kindStep (typeName : String) (m : KindMatch) (c : Choice) : KindMatch :=
+def kindStep (fx : Fixes) (typeName : String) (m : KindMatch) (c : Choice) : KindMatch :=
   match c.kind with
   | .empty => { m with empty := true }
   | .struct _ [a] => if m.single.isNone then { m with single := some a.refType } else { m with noMatch := true }
@@ -225,14 +248,16 @@ def kindStep (typeName : String) (m : KindMatch) (c : Choice) : KindMatch :=
       else { m with noMatch := true }
     else { m with noMatch := true }
   | .struct _ _ => { m with noMatch := true }
-  | .ref r _ => { m with single := some r }
+  | .ref r _ =>
+    -- before the repair `ChoiceKind::Ref` overwrote `single` unconditionally
+    if fx.vecAlt && m.single.isSome then { m with noMatch := true } else { m with single := some r }
   | .plain => { m with noMatch := true }
 
 def isEmptyChoice (c : Choice) : Bool := match c.kind with | .empty => true | _ => false
 
 /-- `SymbolTypes::get_type_kind` -/
-def typeKind (nt : ANt) (choices : List Choice) : TypeKind :=
-  let m := choices.foldl (kindStep nt.name) {}
+def typeKind (fx : Fixes) (nt : ANt) (choices : List Choice) : TypeKind :=
+  let m := choices.foldl (kindStep fx nt.name) {}
   let noe := choices.filter (fun c => !isEmptyChoice c)
   let tn := if m.empty then noOName nt.name else nt.name
   match m.single, m.recurse with
@@ -252,16 +277,16 @@ def typeKind (nt : ANt) (choices : List Choice) : TypeKind :=
       | _ => .enum tn
     | _ => .enum tn
 
-def ntType (g : AGrammar) (nt : ANt) : SymType :=
+def ntType (fx : Fixes) (g : AGrammar) (nt : ANt) : SymType :=
   let ps := g.prodsOf nt.name
   let choices := makeUnique ((enumFrom 0 ps).map (fun ip => mkChoice nt.name ip.1 ip.2))
-  { name := nt.name, kind := typeKind nt choices, choices := choices,
+  { name := nt.name, kind := typeKind fx nt choices, choices := choices,
     optional := ps.any (fun p => (contentRhs p).isEmpty && p.rhs.isEmpty) }
 
 /-- the types before `find_recursions` (terminals first, as in `symbol_types`) -/
-def rawTypes (g : AGrammar) : List SymType :=
+def rawTypes (fx : Fixes) (g : AGrammar) : List SymType :=
   g.terms.map (fun t => { name := t.name, kind := .terminal, choices := [], optional := false })
-    ++ g.nts.map (ntType g)
+    ++ g.nts.map (ntType fx g)
 
 /-! ## `find_recursions` -/
 
@@ -352,8 +377,8 @@ def applyFlags (flags : List Edge) (t : SymType) : SymType :=
   | .enum _ => { t with choices := markChoices flags t.name 0 t.choices }
 
 /-- `SymbolTypes::new`: `none` when the DFS panics (missing type) or the fuel is exhausted -/
-def symbolTypes (g : AGrammar) : Option (List SymType) :=
-  let ts := rawTypes g
+def symbolTypes (fx : Fixes) (g : AGrammar) : Option (List SymType) :=
+  let ts := rawTypes fx g
   (findRecursions (refGraph ts) g.start).map (fun st => ts.map (applyFlags st.flags))
 
 def typeOf (ts : List SymType) (n : String) : Option SymType := ts.find? (·.name == n)
